@@ -248,6 +248,20 @@ example : PathsAvoid exSchema exRoot [[98]] [([97], [55])] := by
   subst hkv
   exact ⟨[[97]], [exFa], by decide, by decide, by decide⟩
 
+/-- KNOWN FINDING D4c (negative witness). "Path variables are written over the body" fails for a proto3
+    `optional` field that the body also sets: message M { optional int32 a = 1; string b = 2; }, body "*"
+    decoded to {a: 1, b: "x"}, path variable a=7. The specification expects {b: "x", a: 7}; the code (and
+    the model) answer InvalidArgument ("field already set for oneof _a"), although the same request on the
+    implicit-presence field `int32 a = 1` is accepted with a = 7. `C04_path_variable_wins_partial` is the
+    statement that does hold (it speaks about successful transcodings). -/
+theorem C04_path_variable_over_body_optional_fails :
+    transcode exSchemaOpt exNoOracle exRootOpt ⟨wildcard⟩ exBodyAB ⟨[([97], [55])], []⟩ = .error .invalidArgument
+    ∧ expect exSchemaOpt exNoOracle exRootOpt ⟨wildcard⟩ exBodyAB ⟨[([97], [55])], []⟩
+        = some (.ok [([[98]], .single (.bytes [120])), ([[97]], .single (.int 7))])
+    ∧ transcode exSchema exNoOracle exRoot ⟨wildcard⟩ exBodyAB ⟨[([97], [55])], []⟩
+        = .ok [([[97]], .single (.int 7)), ([[98]], .single (.bytes [120]))] := by
+  decide
+
 /-! ## text forms -/
 
 /-- integers: accepted text is an optional sign followed by decimal digits only, and the value is within
